@@ -296,7 +296,6 @@ where
 
     async fn load_in_memory(&mut self, findex: FileIndex, blob_size: u64) -> Result<()> {
         let (record_headers, records_count) = findex.get_records_headers(blob_size).await?;
-        self.inner = State::InMemory(SRwLock::new(InMemoryData::new(record_headers, records_count)));
         let meta_buf = findex.read_meta().await.map_err(|err| err.into_bincode_if_unexpected_eof())?;
         let (bloom_filter, range_filter, _) = Self::deserialize_filters(&meta_buf)?;
         let bloom_filter = if self.params.bloom_is_on {
@@ -304,6 +303,9 @@ where
         } else {
             None
         };
+        // Everything has been read: the records and the filters are replaced together. A caller that is dropped, or a
+        // read that fails, in the middle leaves the index as it was (on disk, with the filter that belongs to it)
+        self.inner = State::InMemory(SRwLock::new(InMemoryData::new(record_headers, records_count)));
         self.filter = CombinedFilter::new(bloom_filter, range_filter);
         self.bloom_offset = None;
         Ok(())
